@@ -21,6 +21,7 @@ import (
 	staticchecker "github.com/attestantio/dirk/services/checker/static"
 	standardlister "github.com/attestantio/dirk/services/lister/standard"
 	pb "github.com/wealdtech/eth2-signer-api/pb/v1"
+	e2wallet "github.com/wealdtech/go-eth2-wallet"
 	e2wtypes "github.com/wealdtech/go-eth2-wallet-types/v2"
 )
 
@@ -97,10 +98,31 @@ func c18Body(run *evid.Run, cfg Cfg, tables int, dirName string) int {
 		if t == tables*3/4 {
 			// Further creations in wallets that already received one after start-up (earlier ones must stay listed).
 			for _, nm := range []string{"Wallet1/acct4", "Wallet1/b2"} {
-				pub, _, err := inst.Stack.Process.OnGenerate(context.Background(), rig.Client1(), nm, []byte("pass"), 1, 1)
+				// The second creation comes from a client that has gone away: its request context is already cancelled
+				// when the handler runs.  Whatever the answer, an account that now exists in the wallet is visible.
+				gctx, cancel := context.WithCancel(context.Background())
+				if nm == "Wallet1/b2" {
+					cancel()
+				}
+				pub, _, err := inst.Stack.Process.OnGenerate(gctx, rig.Client1(), nm, []byte("pass"), 1, 1)
+				cancel()
+				if err != nil && nm == "Wallet1/b2" {
+					if w, werr := e2wallet.OpenWallet("Wallet1", e2wallet.WithStore(inst.Store)); werr == nil {
+						if a, aerr := w.(e2wtypes.WalletAccountByNameProvider).AccountByName(context.Background(), "b2"); aerr == nil {
+							pub, err = a.PublicKey().Marshal(), nil
+						}
+					}
+					if err != nil {
+						run.Count("abandoned_creations_refused", 1)
+						continue
+					}
+				}
 				if err != nil {
 					run.Inconclusive("single-participant generation failed: " + err.Error())
 					break
+				}
+				if nm == "Wallet1/b2" {
+					run.Count("accounts_created_by_abandoned_requests", 1)
 				}
 				accts = append(accts, c18Acct{wallet: "Wallet1", name: strings.TrimPrefix(nm, "Wallet1/"), pub: pub})
 			}
